@@ -13,7 +13,9 @@ What is asserted (per family, see the functions below):
   * switches: triangulate => all triangles, volume => VolumeMesh holding the cell, colored / generate_uvs => attribute,
   * a ring's apex has the requested defect (its own corner-angle sum, 1e-5),
   * dual_mesh of a closed surface swaps |V| and |F|, keeps chi / components, is consistently oriented, face v = ring of v,
-  * polyline builders give exactly the stated chains / segments.
+  * polyline builders give exactly the stated chains / segments,
+  * history: each case makes two calls with the same argument objects; the second result must be as valid as the first
+    and no argument (nor a shared default Vec, observed through a second defaulted call) may be modified in place.
 
 NOT asserted: outwardness of the orientation (undocumented, differs between generators; only sphere_fibonacci states it),
 face order, which diagonal triangulates a quad, the colours themselves, `colored`/`triangulate` combined with
@@ -45,7 +47,13 @@ RULE = ("One sub-check per generator family of mouette.procedural (all 20 public
         "a bare sampled_from, which Hypothesis enumerates without repetition: every thorough shard runs the whole list, the "
         "quick tier a random 1/8 per shard. dual_mesh is run on closed oriented manifold polygon surfaces built by the "
         "harness (platonic solids, prisms, antiprisms, bipyramids, tori, connected sums, unions; split / merge / flip / "
-        "1-3 modifications; relabelled), modes barycenter (any case spelling) and circumcenter. non-trivial = two "
+        "1-3 modifications; relabelled), modes barycenter (any case spelling) and circumcenter. Every case calls its "
+        "generator TWICE with the same caller-owned argument objects (Vec corners / centres, arrays, input meshes; second "
+        "call with the radius halved where there is one, or with the centre / radius defaulted again, dual_mesh with a second "
+        "drawn mode on the same mesh object); both results get the full oracle, and after each call every argument object is "
+        "compared with an independent snapshot (signature <gen>:argument-mutated). Argument classes: uniform scale 1 / tiny "
+        "(1e-3..1e-6) / huge (1e3..1e6) with tolerances relative to the scale, integer-typed Vec / arrays, centre and radius "
+        "left at their (shared, mutable) defaults. non-trivial = two "
         "resolutions differ, or a boolean switch / n_cover / mode / optional argument is not at its default, or (for "
         "generators without such parameters) a centre / radius differs from the default; distinct = distinct realised cases.")
 ASSUMPTIONS = [
@@ -66,6 +74,97 @@ TOL = 1e-9
 def vec(p):
     import mouette as M
     return M.Vec(float(p[0]), float(p[1]), float(p[2]))
+
+
+class Args:
+    """Caller-owned argument objects of one case. Every object argument (Vec, array, mesh) is created once, passed to the
+    generator in BOTH calls of the case, and compared after each call with an independent snapshot taken from the case."""
+
+    def __init__(self):
+        self.round = 1
+        self.objs = {}
+        self.snap = {}
+        self.read = {}
+
+    def vec(self, name, p, ints=False):
+        if name not in self.objs:
+            import mouette as M
+            self.objs[name] = M.Vec(*[int(x) for x in p]) if ints else M.Vec(*[float(x) for x in p])
+            self.snap[name] = [float(x) for x in p]
+            self.read[name] = lambda o: [float(x) for x in o]
+        return self.objs[name]
+
+    def vecs(self, name, pts, ints=False):
+        return [self.vec(f"{name}{i}", p, ints) for i, p in enumerate(pts)]
+
+    def arr(self, name, a, ints=False):
+        if name not in self.objs:
+            self.objs[name] = np.array(a, dtype=int if ints else float)
+            self.snap[name] = np.array(a, dtype=float).tolist()
+            self.read[name] = lambda o: np.asarray(o, dtype=float).tolist()
+        return self.objs[name]
+
+    def obj(self, name, factory, reader):
+        if name not in self.objs:
+            self.objs[name] = factory()
+            self.snap[name] = reader(self.objs[name])
+            self.read[name] = reader
+        return self.objs[name]
+
+    def check_unchanged(self, ctx, pre):
+        for name, o in self.objs.items():
+            try:
+                now = self.read[name](o)
+            except Exception as e:
+                now = f"unreadable ({type(e).__name__}: {e})"
+            ctx.check(now == self.snap[name], pre + ":argument-mutated",
+                      f"call #{self.round} changed its argument '{name}' in place: passed {str(self.snap[name])[:200]}, afterwards {str(now)[:200]}")
+
+
+class SecondCallCtx:
+    """proxy used for the second call of a case: same oracles and signatures, messages say that it is the second call"""
+
+    def __init__(self, ctx):
+        self._c = ctx
+
+    def __getattr__(self, name):
+        return getattr(self._c, name)
+
+    def check(self, cond, signature, message="", **detail):
+        return self._c.check(cond, signature, "[second call of the generator in this case, same argument objects] " + str(message), **detail)
+
+    def fail(self, signature, message, **detail):
+        return self._c.fail(signature, "[second call of the generator in this case, same argument objects] " + str(message), **detail)
+
+
+def two_calls(fn):
+    """run the family oracle twice in one case with the same caller-owned argument objects (round 2: radii halved where
+    the family has one, defaulted arguments defaulted again); after each call the arguments must be unchanged"""
+    def run(case, ctx):
+        A = Args()
+        for k in (1, 2):
+            A.round = k
+            fn(case, ctx if k == 1 else SecondCallCtx(ctx), A)
+            A.check_unchanged(ctx, str(case.get("gen", "?")))
+    run.__name__ = fn.__name__
+    return run
+
+
+def mesh_reader(m):
+    out = {"V": [[float(x) for x in v] for v in m.vertices]}
+    for cont in ("edges", "faces"):
+        if hasattr(m, cont):
+            out[cont] = [[int(x) for x in r] for r in getattr(m, cont)]
+    return out
+
+
+def label_args(case, ctx):
+    sc = case.get("scale", 1.0)
+    ctx.label("scale=tiny" if sc < 1 else "scale=huge" if sc > 1 else "scale=unit")
+    if case.get("int_args"):
+        ctx.label("int-typed-args")
+    if case.get("defaults"):
+        ctx.label("defaulted-centre-radius")
 
 
 def classes():
@@ -151,12 +250,13 @@ def check_surface(ctx, pre, m, nV=None, nF=None, arity=None, chi=None, loops=Non
 
 
 def scale_of(*xs):
-    s = 1.0
+    """size of the input data (largest absolute coordinate / radius); tolerances are relative to it"""
+    s = 0.0
     for x in xs:
         a = np.abs(np.asarray(x, dtype=float))
         if a.size:
             s = max(s, float(a.max()))
-    return s
+    return s if s > 0 else 1.0
 
 
 def check_close(ctx, sig, got, exp, scale, what, tol=TOL):
@@ -277,15 +377,31 @@ def radius(src):
     return src.real(0.05, 20.0, nice=[1.0, 0.5, 2.0, 1.2])
 
 
-def distinct_points(src, n, sep=0.25):
+def distinct_points(src, n, sep=0.25, ints=False):
     """n points, pairwise at least `sep` apart (deterministic shifting along x)"""
     pts = []
     for _ in range(n):
         p = point(src)
+        if ints:
+            p = [float(round(x)) for x in p]
         while any(math.dist(p, q) < sep for q in pts):
             p = [p[0] + 1.0, p[1], p[2]]
         pts.append(p)
     return pts
+
+
+def arg_class(src):
+    """(uniform scale factor, integer-typed arguments): unit scale mostly, tiny / huge scale and integer Vec / arrays sometimes"""
+    k = src.choice(["unit", "unit", "unit", "tiny", "huge", "int"])
+    if k == "tiny":
+        return src.choice([1e-3, 1e-4, 1e-6]), False
+    if k == "huge":
+        return src.choice([1e3, 1e4, 1e6]), False
+    return 1.0, k == "int"
+
+
+def scaled(pts, S):
+    return [[float(x * S) for x in p] for p in pts]
 
 
 def product(*axes):
@@ -309,17 +425,20 @@ def family_strategy(name):
 # ================================================================================================ tetrahedron
 
 def build_tet(p, src):
-    return {"gen": "tetrahedron", "P": distinct_points(src, 4), "volume": p[0], "explicit": p[1]}
+    S, ints = arg_class(src)
+    return {"gen": "tetrahedron", "P": scaled(distinct_points(src, 4, ints=ints), S), "volume": p[0], "explicit": p[1],
+            "scale": S, "int_args": ints}
 
 
-def fn_tetrahedron(case, ctx):
+def fn_tetrahedron(case, ctx, A):
     import mouette as M
     P = case["P"]
     vol = bool(case["volume"])
     ctx.label(f"volume={vol}")
+    label_args(case, ctx)
     ctx.nontrivial(vol)
     pre = "tetrahedron"
-    args = [vec(p) for p in P]
+    args = A.vecs("P", P, case.get("int_args"))
     if vol or case["explicit"]:
         ok, m = ctx.call(pre, M.procedural.tetrahedron, *args, volume=vol)
     else:
@@ -352,34 +471,42 @@ HEXA_LATTICE = ([["hexahedron", c, t, v] for c in BOOL for t in BOOL for v in BO
 def build_hexa(p, src):
     gen, colored, triangulate, volume = p
     case = {"gen": gen, "colored": colored, "triangulate": triangulate, "volume": volume}
+    if gen == "axis_aligned_cube":
+        return case
+    S, ints = arg_class(src)
+    case.update(scale=S, int_args=ints)
     if gen == "hexahedron":
         # the combinatorial cube of the docstring diagram in an arbitrary (jittered, sheared, moved) configuration
         o = point(src)
         s = src.real(0.2, 5.0)
         jit = [[src.real(-0.3, 0.3, nice=[0.0]) for _ in range(3)] for _ in range(8)]
-        case["P"] = [[o[k] + s * (UNIT_CUBE[i][k] + jit[i][k]) for k in range(3)] for i in range(8)]
-    elif gen == "hexahedron_4pts":
-        case["P"] = distinct_points(src, 4)
+        if ints:
+            o, s, jit = [float(round(x)) for x in o], 2.0, [[0.0] * 3] * 8
+        case["P"] = scaled([[o[k] + s * (UNIT_CUBE[i][k] + jit[i][k]) for k in range(3)] for i in range(8)], S)
+    else:
+        case["P"] = scaled(distinct_points(src, 4, ints=ints), S)
     return case
 
 
-def fn_hexahedron(case, ctx):
+def fn_hexahedron(case, ctx, A):
     import mouette as M
     gen = case["gen"]
     colored, tri, vol = bool(case["colored"]), bool(case["triangulate"]), bool(case["volume"])
     ctx.label(gen, f"{gen}:colored={colored},triangulate={tri},volume={vol}")
+    label_args(case, ctx)
+    ints = case.get("int_args")
     ctx.nontrivial(colored or tri or vol)
     pre = gen
     if gen == "hexahedron":
         P = case["P"]
-        ok, m = ctx.call(pre, M.procedural.hexahedron, *[vec(p) for p in P], colored=colored, triangulate=tri, volume=vol)
+        ok, m = ctx.call(pre, M.procedural.hexahedron, *A.vecs("P", P, ints), colored=colored, triangulate=tri, volume=vol)
         corners = P
     elif gen == "axis_aligned_cube":
         ok, m = ctx.call(pre, M.procedural.axis_aligned_cube, colored=colored, triangulate=tri)
         corners = UNIT_CUBE
     else:
         P = np.array(case["P"], dtype=float)
-        ok, m = ctx.call(pre, M.procedural.hexahedron_4pts, *[vec(p) for p in case["P"]], colored=colored, volume=vol)
+        ok, m = ctx.call(pre, M.procedural.hexahedron_4pts, *A.vecs("P", case["P"], ints), colored=colored, volume=vol)
         X, Y = P[1] - P[0], P[2] - P[0]
         corners = [P[0], P[0] + X, P[0] + X + Y, P[0] + Y, P[3], P[3] + X, P[3] + X + Y, P[3] + Y]
     if not ok:
@@ -439,17 +566,29 @@ def fn_hexahedron(case, ctx):
 
 # ================================================================================================ platonic solids
 
-PLATONIC_LATTICE = [["octahedron", False], ["dodecahedron", False], ["icosahedron", False], ["icosahedron", True]]
+PLATONIC_LATTICE = [["octahedron", False, False], ["dodecahedron", False, False], ["icosahedron", False, False],
+                    ["icosahedron", True, False], ["icosahedron", False, True]]
+
+
+def centre_radius(src, defaults):
+    """centre, radius, scale, int flag of a sphere-like generator (defaults: arguments omitted in the call)"""
+    if defaults:
+        return {"center": [0.0, 0.0, 0.0], "radius": 1.0, "defaults": True}
+    S, ints = arg_class(src)
+    c = center(src)
+    if ints:
+        c = [float(round(x)) for x in c]
+    return {"center": [x * S for x in c], "radius": float(radius(src) * S), "scale": S, "int_args": ints, "defaults": False}
 
 
 def build_platonic(p, src):
     case = {"gen": p[0]}
     if p[0] == "icosahedron":
-        case.update(center=center(src), radius=radius(src), uv=p[1])
+        case.update(centre_radius(src, p[2]), uv=p[1])
     return case
 
 
-def fn_platonic(case, ctx):
+def fn_platonic(case, ctx, A):
     import mouette as M
     gen = case["gen"]
     pre = gen
@@ -464,14 +603,17 @@ def fn_platonic(case, ctx):
         nV, nF, ar = 20, 12, 5
     else:
         c = np.array(case["center"], dtype=float)
-        rad = float(case["radius"])
+        rad = float(case["radius"]) * (0.5 if A.round == 2 and not case.get("defaults") else 1.0)
         uv = bool(case["uv"])
         ctx.label(f"icosahedron:uv={uv}")
+        label_args(case, ctx)
         ctx.nontrivial(uv or rad != 1.0 or bool(np.any(c != 0)))
-        if uv:
-            ok, m = ctx.call(pre, M.procedural.icosahedron, vec(c), rad, uv=True)
+        if case.get("defaults"):
+            ok, m = ctx.call(pre, M.procedural.icosahedron)
+        elif uv:
+            ok, m = ctx.call(pre, M.procedural.icosahedron, A.vec("center", c, case.get("int_args")), rad, uv=True)
         else:
-            ok, m = ctx.call(pre, M.procedural.icosahedron, center=vec(c), radius=rad)
+            ok, m = ctx.call(pre, M.procedural.icosahedron, center=A.vec("center", c, case.get("int_args")), radius=rad)
         nV, nF, ar = 12, 20, 3
     if not ok:
         return
@@ -519,8 +661,14 @@ def build_cylinder(p, src):
         d = [e, src.choice([0.0, e, -e]), src.choice([1.0, -1.0])]
     else:
         d = {"x": [1.0, 0.0, 0.0], "y": [0.0, 1.0, 0.0], "z": [0.0, 0.0, 1.0], "-z": [0.0, 0.0, -1.0]}[ax]
+    S, ints = arg_class(src)
+    if ints and ax in ("x", "y", "z", "-z"):
+        P1, h = [float(round(x)) for x in P1], float(max(1, round(h)))
+    else:
+        ints = False
     P2 = [P1[k] + h * d[k] for k in range(3)]
-    return {"gen": "cylinder", "N": N, "fill_caps": caps, "axis": ax, "P1": P1, "P2": P2, "radius": radius(src)}
+    return {"gen": "cylinder", "N": N, "fill_caps": caps, "axis": ax, "P1": [x * S for x in P1], "P2": [x * S for x in P2],
+            "radius": float(radius(src) * S), "scale": S, "int_args": ints}
 
 
 def check_tube_geometry(ctx, pre, V, idx, A, B, rad, N, sc, what=""):
@@ -547,14 +695,16 @@ def check_regular_polygon(ctx, pre, V, loop, rad, sc, what):
                      f"{what}: consecutive rim vertices are not 2pi/{n} apart (chords in [{float(chord.min())!r}, {float(chord.max())!r}], expected {2 * rad * math.sin(math.pi / n)!r})")
 
 
-def fn_cylinder(case, ctx):
+def fn_cylinder(case, ctx, A):
     import mouette as M
-    N, caps, rad = int(case["N"]), bool(case["fill_caps"]), float(case["radius"])
+    N, caps, rad = int(case["N"]), bool(case["fill_caps"]), float(case["radius"]) * (0.5 if A.round == 2 else 1.0)
     P1, P2 = np.array(case["P1"], float), np.array(case["P2"], float)
     ctx.label("axis=" + case["axis"], f"fill_caps={caps}", f"N={N}")
+    label_args(case, ctx)
     ctx.nontrivial(not caps)
     pre = "cylinder"
-    ok, m = ctx.call(pre, M.procedural.cylinder, vec(P1), vec(P2), radius=rad, N=N, fill_caps=caps)
+    ints = case.get("int_args")
+    ok, m = ctx.call(pre, M.procedural.cylinder, A.vec("P1", P1, ints), A.vec("P2", P2, ints), radius=rad, N=N, fill_caps=caps)
     if not ok:
         return
     r = check_surface(ctx, pre, m, nV=2 * N + (2 if caps else 0), nF=4 * N if caps else 2 * N, arity=3,
@@ -584,16 +734,19 @@ def fn_cylinder(case, ctx):
 
 def build_torus(p, src):
     a, b, tri = p
+    S, _ = arg_class(src)
     R = src.real(0.5, 10.0, nice=[1.0])
-    r = src.real(0.05, 0.9, nice=[0.3]) * R
-    return {"gen": "torus", "major_segments": a, "minor_segments": b, "triangulate": tri, "major_radius": R, "minor_radius": float(round(r, 6))}
+    r = float(round(src.real(0.05, 0.9, nice=[0.3]) * R, 6))
+    return {"gen": "torus", "major_segments": a, "minor_segments": b, "triangulate": tri, "major_radius": float(R * S),
+            "minor_radius": float(r * S), "scale": S}
 
 
-def fn_torus(case, ctx):
+def fn_torus(case, ctx, A):
     import mouette as M
     a, b, tri = int(case["major_segments"]), int(case["minor_segments"]), bool(case["triangulate"])
     R, r0 = float(case["major_radius"]), float(case["minor_radius"])
     ctx.label(f"triangulate={tri}", "equal" if a == b else "unequal", f"major={a}", f"minor={b}")
+    label_args(case, ctx)
     ctx.nontrivial(a != b or tri)
     pre = "torus"
     ok, m = ctx.call(pre, M.procedural.torus, a, b, R, r0, triangulate=tri)
@@ -617,17 +770,24 @@ def fn_torus(case, ctx):
 # ================================================================================================ spheres
 
 def build_sphere_uv(p, src):
-    return {"gen": "sphere_uv", "n_lat": p[0], "n_long": p[1], "center": center(src), "radius": radius(src)}
+    case = {"gen": "sphere_uv", "n_lat": p[0], "n_long": p[1]}
+    case.update(centre_radius(src, p[2]))
+    return case
 
 
-def fn_sphere_uv(case, ctx):
+def fn_sphere_uv(case, ctx, A):
     import mouette as M
     n_lat, n_long = int(case["n_lat"]), int(case["n_long"])
-    c, rad = np.array(case["center"], float), float(case["radius"])
+    dflt = bool(case.get("defaults"))
+    c, rad = np.array(case["center"], float), float(case["radius"]) * (0.5 if A.round == 2 and not dflt else 1.0)
     ctx.label("equal" if n_lat == n_long else "unequal", f"n_lat={n_lat}", f"n_long={n_long}")
+    label_args(case, ctx)
     ctx.nontrivial(n_lat != n_long)
     pre = "sphere_uv"
-    ok, m = ctx.call(pre, M.procedural.sphere_uv, n_lat, n_long, center=vec(c), radius=rad)
+    if dflt:
+        ok, m = ctx.call(pre, M.procedural.sphere_uv, n_lat, n_long)
+    else:
+        ok, m = ctx.call(pre, M.procedural.sphere_uv, n_lat, n_long, center=A.vec("center", c, case.get("int_args")), radius=rad)
     if not ok:
         return
     # vertex count pinned by tests/test_procedural.py::test_sphere_uv ("don't forget the poles")
@@ -650,17 +810,24 @@ def fn_sphere_uv(case, ctx):
 
 
 def build_icosphere(p, src):
-    return {"gen": "icosphere", "n_refine": p[0], "center": center(src), "radius": radius(src)}
+    case = {"gen": "icosphere", "n_refine": p[0]}
+    case.update(centre_radius(src, p[1]))
+    return case
 
 
-def fn_icosphere(case, ctx):
+def fn_icosphere(case, ctx, A):
     import mouette as M
     n = int(case["n_refine"])
-    c, rad = np.array(case["center"], float), float(case["radius"])
+    dflt = bool(case.get("defaults"))
+    c, rad = np.array(case["center"], float), float(case["radius"]) * (0.5 if A.round == 2 and not dflt else 1.0)
     ctx.label(f"n_refine={n}")
+    label_args(case, ctx)
     ctx.nontrivial(rad != 1.0 or bool(np.any(c != 0)))
     pre = "icosphere"
-    ok, m = ctx.call(pre, M.procedural.icosphere, n, vec(c), rad)
+    if dflt:
+        ok, m = ctx.call(pre, M.procedural.icosphere, n)
+    else:
+        ok, m = ctx.call(pre, M.procedural.icosphere, n, A.vec("center", c, case.get("int_args")), rad)
     if not ok:
         return
     r = check_surface(ctx, pre, m, nV=10 * 4 ** n + 2, nF=20 * 4 ** n, arity=3, chi=2, loops=0, comps=1)
@@ -675,12 +842,14 @@ FIB_LATTICE = [[n, s] for n in list(range(1, 41)) + [100, 300] for s in BOOL if 
 
 
 def build_fibonacci(p, src):
-    return {"gen": "sphere_fibonacci", "n_pts": p[0], "build_surface": p[1], "radius": radius(src)}
+    S, _ = arg_class(src)
+    return {"gen": "sphere_fibonacci", "n_pts": p[0], "build_surface": p[1], "radius": float(radius(src) * S), "scale": S}
 
 
-def fn_fibonacci(case, ctx):
+def fn_fibonacci(case, ctx, A):
     import mouette as M
-    n, surf, rad = int(case["n_pts"]), bool(case["build_surface"]), float(case["radius"])
+    n, surf, rad = int(case["n_pts"]), bool(case["build_surface"]), float(case["radius"]) * (0.5 if A.round == 2 else 1.0)
+    label_args(case, ctx)
     ctx.label(f"build_surface={surf}", "n<=8" if n <= 8 else "n>40" if n > 40 else "n>8")
     ctx.nontrivial(not surf or rad != 1.0)
     pre = "sphere_fibonacci"
@@ -720,7 +889,7 @@ def build_ring(p, src):
     return {"gen": "ring", "N": p[0], "open": p[1], "n_cover": p[2], "defect": defect(src)}
 
 
-def fn_ring(case, ctx):
+def fn_ring(case, ctx, A):
     import mouette as M
     N, opn, nc, defect = int(case["N"]), bool(case["open"]), int(case["n_cover"]), float(case["defect"])
     ctx.label(f"open={opn}", f"n_cover={nc}", "defect=0" if defect == 0 else "defect=max" if defect >= MAX_DEFECT else "defect>pi" if defect > math.pi else "defect<=pi")
@@ -750,7 +919,7 @@ def build_flat_ring(p, src):
     return {"gen": "flat_ring", "N": p[0], "n_cover": p[1], "defect": defect(src)}
 
 
-def fn_flat_ring(case, ctx):
+def fn_flat_ring(case, ctx, A):
     import mouette as M
     N, nc, defect = int(case["N"]), int(case["n_cover"]), float(case["defect"])
     ctx.label(f"n_cover={nc}", "N<3" if N < 3 else "N>=3", "defect=0" if defect == 0 else "defect>0")
@@ -789,19 +958,23 @@ FLAT_LATTICE = [["triangle", False, False], ["quad", False, False], ["quad", Fal
 
 
 def build_flat(p, src):
-    return {"gen": p[0], "triangulate": p[1], "P": distinct_points(src, 3), "explicit": p[2]}
+    S, ints = arg_class(src)
+    return {"gen": p[0], "triangulate": p[1], "P": scaled(distinct_points(src, 3, ints=ints), S), "explicit": p[2],
+            "scale": S, "int_args": ints}
 
 
-def fn_flat(case, ctx):
+def fn_flat(case, ctx, A):
     import mouette as M
     gen, tri = case["gen"], bool(case["triangulate"])
     P = np.array(case["P"], float)
     ctx.label(gen, f"{gen}:triangulate={tri}")
+    label_args(case, ctx)
+    args = A.vecs("P", P, case.get("int_args"))
     ctx.nontrivial(tri)
     pre = gen
     sc = scale_of(P)
     if gen == "triangle":
-        ok, m = ctx.call(pre, M.procedural.triangle, *[vec(p) for p in P])
+        ok, m = ctx.call(pre, M.procedural.triangle, *args)
         if not ok:
             return
         r = check_surface(ctx, pre, m, nV=3, nF=1, arity=3, chi=1, loops=1, comps=1)
@@ -810,9 +983,9 @@ def fn_flat(case, ctx):
             ctx.check(r[1][0] in ((0, 1, 2), (1, 2, 0), (2, 0, 1)), pre + ":orientation", f"the face {r[1][0]} does not run P0, P1, P2")
         return
     if tri or case["explicit"]:
-        ok, m = ctx.call(pre, M.procedural.quad, *[vec(p) for p in P], triangulate=tri)
+        ok, m = ctx.call(pre, M.procedural.quad, *args, triangulate=tri)
     else:
-        ok, m = ctx.call(pre, M.procedural.quad, *[vec(p) for p in P])
+        ok, m = ctx.call(pre, M.procedural.quad, *args)
     if not ok:
         return
     r = check_surface(ctx, pre, m, nV=4, nF=2 if tri else 1, arity=3 if tri else 4, chi=1, loops=1, comps=1)
@@ -860,7 +1033,7 @@ def build_grid(p, src):
     return {"gen": "unit_grid", "nu": p[0], "nv": p[1], "triangulate": p[2], "generate_uvs": p[3]}
 
 
-def fn_unit_grid(case, ctx):
+def fn_unit_grid(case, ctx, A):
     import mouette as M
     nu, nv, tri, uvs = int(case["nu"]), int(case["nv"]), bool(case["triangulate"]), bool(case["generate_uvs"])
     ctx.label("equal" if nu == nv else "nu<nv" if nu < nv else "nu>nv", f"triangulate={tri}", f"generate_uvs={uvs}")
@@ -884,7 +1057,7 @@ def build_unit_triangle(p, src):
     return {"gen": "unit_triangle", "nu": p[0], "nv": p[1], "generate_uvs": p[2]}
 
 
-def fn_unit_triangle(case, ctx):
+def fn_unit_triangle(case, ctx, A):
     import mouette as M
     nu, nv, uvs = int(case["nu"]), int(case["nv"]), bool(case["generate_uvs"])
     ctx.label("equal" if nu == nv else "nu<nv" if nu < nv else "nu>nv", f"generate_uvs={uvs}")
@@ -921,14 +1094,17 @@ POLYLINE_LATTICE = ([["chain_of_vertices", n, loop, K, ex] for n in range(1, 9) 
 
 def build_polyline(p, src):
     gen = p[0]
+    S, ints = arg_class(src)
+
+    def rows(n, K):
+        return [[float(round(coord(src))) if ints else float(coord(src) * S) for _ in range(K)] for _ in range(n)]
     if gen == "chain_of_vertices":
         _, n, loop, K, ex = p
-        pts = [[coord(src) for _ in range(K)] for _ in range(n)]
-        return {"gen": gen, "loop": loop, "dim": K, "points": pts, "explicit": ex}
+        return {"gen": gen, "loop": loop, "dim": K, "points": rows(n, K), "explicit": ex, "scale": S, "int_args": ints}
     _, n, K, dflt = p
-    org = [[coord(src) for _ in range(K)] for _ in range(n)]
-    vecs = [[coord(src) for _ in range(K)] for _ in range(n)]
-    return {"gen": gen, "dim": K, "origins": org, "vectors": vecs,
+    org = rows(n, K)
+    vecs = rows(n, K)
+    return {"gen": gen, "dim": K, "origins": org, "vectors": vecs, "scale": S, "int_args": ints,
             "length_mult": None if dflt else src.real(-5.0, 5.0, nice=[1.0, 0.5, -2.0, 0.0])}
 
 
@@ -937,11 +1113,13 @@ def pad3(A):
     return np.pad(A, ((0, 0), (0, 3 - A.shape[1])))
 
 
-def fn_polylines(case, ctx):
+def fn_polylines(case, ctx, A):
     import mouette as M
     gen = case["gen"]
     pre = gen
     ctx.label(gen, f"{gen}:dim={case['dim']}")
+    label_args(case, ctx)
+    ints = case.get("int_args")
     if gen == "chain_of_vertices":
         loop = bool(case["loop"])
         pts = np.array(case["points"], dtype=float)
@@ -949,9 +1127,9 @@ def fn_polylines(case, ctx):
         ctx.label(f"loop={loop}")
         ctx.nontrivial(loop)
         if loop or case["explicit"]:
-            ok, m = ctx.call(pre, M.procedural.chain_of_vertices, pts.copy(), loop=loop)
+            ok, m = ctx.call(pre, M.procedural.chain_of_vertices, A.arr("vertices", pts, ints), loop=loop)
         else:
-            ok, m = ctx.call(pre, M.procedural.chain_of_vertices, pts.copy())
+            ok, m = ctx.call(pre, M.procedural.chain_of_vertices, A.arr("vertices", pts, ints))
         if not ok or not check_type(ctx, pre, m, "PolyLine"):
             return
         V = vertex_array(ctx, pre, m)
@@ -966,10 +1144,10 @@ def fn_polylines(case, ctx):
     mult = case["length_mult"]
     ctx.nontrivial(mult is not None and mult != 1.0)
     if mult is None:
-        ok, m = ctx.call(pre, M.procedural.vector_field, org.copy(), vecs.copy())
+        ok, m = ctx.call(pre, M.procedural.vector_field, A.arr("origins", org, ints), A.arr("vectors", vecs, ints))
         mult = 1.0
     else:
-        ok, m = ctx.call(pre, M.procedural.vector_field, org.copy(), vecs.copy(), length_mult=float(mult))
+        ok, m = ctx.call(pre, M.procedural.vector_field, A.arr("origins", org, ints), A.arr("vectors", vecs, ints), length_mult=float(mult))
     if not ok or not check_type(ctx, pre, m, "PolyLine"):
         return
     V = vertex_array(ctx, pre, m)
@@ -996,11 +1174,15 @@ def build_transform(p, src):
     gen = p[0]
     if gen == "spherify_vertices":
         _, n, k, form, dflt = p
-        return {"gen": gen, "points": distinct_points(src, n, sep=0.5), "n_subdiv": k, "form": form,
-                "radius": None if dflt else src.real(0.01, 3.0)}
+        S, ints = arg_class(src)
+        if dflt:
+            S = 1.0        # the default radius 1e-2 is absolute
+        return {"gen": gen, "points": scaled(distinct_points(src, n, sep=0.5, ints=ints), S), "n_subdiv": k, "form": form,
+                "radius": None if dflt else float(src.real(0.01, 3.0) * S), "scale": S, "int_args": ints}
     _, shape, N, dflt = p
     n = src.integer(3, 6)
-    pts = distinct_points(src, n, sep=0.5)
+    S, ints = arg_class(src)
+    pts = scaled(distinct_points(src, n, sep=0.5, ints=ints), S)
     if shape == "path":
         E = [[i, i + 1] for i in range(n - 1)]
     elif shape == "cycle":
@@ -1011,7 +1193,8 @@ def build_transform(p, src):
         E = [[2 * i, 2 * i + 1] for i in range(n // 2)]
     else:
         E = []
-    return {"gen": gen, "shape": shape, "points": pts, "edges": E, "N": N, "radius": None if dflt else src.real(0.01, 0.5)}
+    return {"gen": gen, "shape": shape, "points": pts, "edges": E, "N": N, "radius": None if dflt else src.real(0.01, 0.5),
+            "scale": S, "int_args": ints}
 
 
 def match_components(ctx, pre, V, ref, n_expected, fits, what):
@@ -1027,22 +1210,23 @@ def match_components(ctx, pre, V, ref, n_expected, fits, what):
         taken.add(cand[0])
 
 
-def fn_transformations(case, ctx):
+def fn_transformations(case, ctx, A):
     import mouette as M
     gen = case["gen"]
     pre = gen
     P = np.array(case["points"], float)
     rad = case["radius"]
+    label_args(case, ctx)
     if gen == "spherify_vertices":
         k, form = int(case["n_subdiv"]), case["form"]
         ctx.label(gen, "form=" + form, f"n_subdiv={k}")
         ctx.nontrivial(k != 1 or rad is not None)
         if form == "pointcloud":
-            inp = pointcloud_from(P.tolist())
+            inp = A.obj("points", lambda: pointcloud_from(P.tolist()), mesh_reader)
         elif form == "polyline":
-            inp = polyline_from(P.tolist(), [(i, i + 1) for i in range(len(P) - 1)])
+            inp = A.obj("points", lambda: polyline_from(P.tolist(), [(i, i + 1) for i in range(len(P) - 1)]), mesh_reader)
         else:
-            inp = P.copy()
+            inp = A.arr("points", P, case.get("int_args"))
         kw = {} if rad is None else {"radius": float(rad)}
         rad = 1e-2 if rad is None else float(rad)
         ok, m = ctx.call(pre, M.procedural.spherify_vertices, inp, n_subdiv=k, **kw)
@@ -1065,11 +1249,11 @@ def fn_transformations(case, ctx):
     ctx.label(gen, "input=" + shape)
     ctx.nontrivial(True)
     if shape == "triangle_mesh":
-        inp = surface_from(P[:3].tolist(), [[0, 1, 2]])
+        inp = A.obj("mesh", lambda: surface_from(P[:3].tolist(), [[0, 1, 2]]), mesh_reader)
         E = [(0, 1), (1, 2), (0, 2)]
     else:
         E = [tuple(e) for e in case["edges"]]
-        inp = polyline_from(P.tolist(), E)
+        inp = A.obj("mesh", lambda: polyline_from(P.tolist(), E), mesh_reader)
     kw = {} if rad is None else {"radius": float(rad)}
     rad = 5e-2 if rad is None else float(rad)
     ok, m = ctx.call(pre, M.procedural.cylindrify_edges, inp, N=N, **kw)
@@ -1129,15 +1313,16 @@ def dual_case(draw):
     is_tri = all(len(f) == 3 for f in s["F"])
     # circumcentres are only defined for non-degenerate triangles
     circ_ok = is_tri and G.min_angle_deg(s["V"], s["F"]) >= 10.0
-    mode = draw(st.sampled_from([None, "barycenter", "Barycenter", "circumcenter", "circumcenter"] if circ_ok else [None, "barycenter", "BARYCENTER"]))
-    return {"gen": "dual_mesh", "V": s["V"], "F": s["F"], "tags": s["tags"], "mode": mode}
+    modes = [None, "barycenter", "Barycenter", "circumcenter", "circumcenter"] if circ_ok else [None, "barycenter", "BARYCENTER"]
+    return {"gen": "dual_mesh", "V": s["V"], "F": s["F"], "tags": s["tags"], "mode": draw(st.sampled_from(modes)),
+            "mode2": draw(st.sampled_from(modes))}
 
 
-def fn_dual(case, ctx):
+def fn_dual(case, ctx, A):
     import mouette as M
     Vp = np.array(case["V"], float)
     Fp = [tuple(f) for f in case["F"]]
-    mode = case["mode"]
+    mode = case["mode"] if A.round == 1 else case.get("mode2", case["mode"])
     refp = SurfRef(len(Vp), Fp)
     D = ref_dual(refp) if refp.validate() is None else None
     if D is None:
@@ -1145,10 +1330,10 @@ def fn_dual(case, ctx):
     for t in case.get("tags", []):
         if t.startswith(("base=", "genus=", "comps=", "sum=", "union=")) or t in ("tri", "quad", "mixed34", "polygon"):
             ctx.label(t)
-    ctx.label("mode=" + str(mode))
+    ctx.label("mode=" + str(mode), f"modes={str(case['mode']).lower()}->{str(case.get('mode2')).lower()}")
     ctx.nontrivial(mode not in (None, "barycenter") or any(len(f) != 3 for f in Fp))
     pre = "dual_mesh"
-    prim = surface_from(Vp.tolist(), Fp)
+    prim = A.obj("mesh", lambda: surface_from(Vp.tolist(), Fp), mesh_reader)     # the same mesh object in both calls
     if mode is None:
         ok, m = ctx.call(pre, M.procedural.dual_mesh, prim)
     else:
@@ -1185,8 +1370,8 @@ FAMILIES.update({
     "platonic": (PLATONIC_LATTICE, build_platonic, fn_platonic),
     "cylinder": (product(range(3, 13), BOOL, AXES) + product((20, 50), BOOL, ("z", "random")), build_cylinder, fn_cylinder),
     "torus": (product(range(3, 10), range(3, 10), BOOL) + product((50, 30, 10), (30, 20, 10), BOOL), build_torus, fn_torus),
-    "sphere_uv": (product(range(2, 10), range(3, 10)) + [[30, 50], [20, 30], [30, 20]], build_sphere_uv, fn_sphere_uv),
-    "icosphere": (product(range(0, 4)), build_icosphere, fn_icosphere),
+    "sphere_uv": (product(range(2, 10), range(3, 10), BOOL) + product((30, 20), (50, 30, 20), BOOL), build_sphere_uv, fn_sphere_uv),
+    "icosphere": (product(range(0, 4), BOOL), build_icosphere, fn_icosphere),
     "sphere_fibonacci": (FIB_LATTICE, build_fibonacci, fn_fibonacci),
     "ring": (product(range(3, 11), BOOL, (1, 2, 3)), build_ring, fn_ring),
     "flat_ring": (product(range(1, 11), (1, 2, 3)), build_flat_ring, fn_flat_ring),
@@ -1196,6 +1381,9 @@ FAMILIES.update({
     "polylines": (POLYLINE_LATTICE, build_polyline, fn_polylines),
     "transformations": (TRANSFORM_LATTICE, build_transform, fn_transformations),
 })
+
+
+FAMILIES = {name: (lat, build, two_calls(fn)) for name, (lat, build, fn) in FAMILIES.items()}
 
 
 def full_lattice():
@@ -1229,7 +1417,7 @@ _Q = {"tetrahedron": 60, "hexahedra": 160, "platonic": 60, "cylinder": 240, "tor
       "polylines": 160, "transformations": 120}
 
 SUBCHECKS = [SubCheck(name, family_strategy(name), FAMILIES[name][2], quick=4 * _Q[name], thorough=6 * _Q[name]) for name in _Q] + [
-    SubCheck("dual_mesh", dual_case(), fn_dual, quick=1000, thorough=2000),
+    SubCheck("dual_mesh", dual_case(), two_calls(fn_dual), quick=1000, thorough=2000),
     # bare sampled_from over a finite list: Hypothesis never repeats a choice sequence, so a budget >= len(LATTICE_CASES)
     # enumerates the whole lattice in every thorough shard (it stops by itself once the list is exhausted)
     SubCheck("lattice", st.sampled_from(LATTICE_CASES), fn_lattice, quick=len(LATTICE_CASES), thorough=len(LATTICE_CASES) + 50),
